@@ -58,7 +58,7 @@ def build(tier, seed):
     ]
     real_rcv = [
         (1, 2, 0, 0, "A2 A1 E A1"), (2, 2, 1, 2, "A2 A2 E A1"), (2, 2, 0, 3, "A2 A1 A0 E"),
-        (3, 2, 2, 4, "A2 A3 E"), (3, 2, 0, 0, "A1 A2 R*"), (2, 2, 2, 1, "A1 R1 A2 E"),
+        (3, 2, 2, 2, "A2 A3 E"), (3, 2, 0, 0, "A1 A2 R*"), (2, 2, 2, 1, "A1 R1 A2 E"),
         (2, 3, 1, 0, "A3 A3 E"), (3, 2, 3, 0, "E A2"),
     ]
     # (b) Longer scripts with remove replaced by the pop_front model (verified equivalent to the
